@@ -40,12 +40,12 @@ impl GroupC {
         };
         let cases = match (id, tier) {
             ("C16", Tier::Quick) => 1500,
-            ("C16", Tier::Thorough) => 15000,
+            ("C16", Tier::Thorough) => 50000,
             (_, Tier::Quick) => 4000,
-            (_, Tier::Thorough) => 40000,
+            (_, Tier::Thorough) => 100000,
         };
         let strings = match id {
-            "C02" | "C03" => Some(ExprStream::new(tier, seed, 6)),
+            "C02" | "C03" => Some(ExprStream::new(tier, seed, if tier == Tier::Thorough { 2 } else { 6 })),
             _ => None,
         };
         GroupC { id, cases, strings }
@@ -1414,22 +1414,33 @@ const C20_STACKS: usize = 4;
 
 const C20_DEPTHS: usize = 3;
 
-fn c20_case_count() -> usize {
-    // Enumerated: trees x (none + singles + sampled pairs) x link modes x stacks x depth kinds.
+/// Number of fault pairs enumerated per base tree: a sample in the quick tier, every unordered
+/// pair of fault sites in the thorough tier.
+fn c20_pairs(s: usize, all_pairs: bool) -> usize {
+    if all_pairs {
+        s * s.saturating_sub(1) / 2
+    }
+    else {
+        s.min(40)
+    }
+}
+
+fn c20_case_count(all_pairs: bool) -> usize {
+    // Enumerated: trees x (none + singles + pairs) x link modes x stacks x depth kinds.
     let mut n = 0;
     for k in 0..4 {
         let s = fault_sites(&fault_base_tree(k)).len();
-        n += (1 + s + s.min(40)) * 2 * C20_STACKS * C20_DEPTHS;
+        n += (1 + s + c20_pairs(s, all_pairs)) * 2 * C20_STACKS * C20_DEPTHS;
     }
     n
 }
 
-fn c20_decode(mut idx: usize, rng: &mut Rng) -> Option<(usize, Vec<Fault>, bool, usize, usize)> {
+fn c20_decode(mut idx: usize, rng: &mut Rng, all_pairs: bool) -> Option<(usize, Vec<Fault>, bool, usize, usize)> {
     for k in 0..4 {
         let t = fault_base_tree(k);
         let sites = fault_sites(&t);
         let s = sites.len();
-        let per = (1 + s + s.min(40)) * 2 * C20_STACKS * C20_DEPTHS;
+        let per = (1 + s + c20_pairs(s, all_pairs)) * 2 * C20_STACKS * C20_DEPTHS;
         if idx < per {
             let depth_kind = idx % C20_DEPTHS;
             idx /= C20_DEPTHS;
@@ -1442,6 +1453,16 @@ fn c20_decode(mut idx: usize, rng: &mut Rng) -> Option<(usize, Vec<Fault>, bool,
             }
             else if idx <= s {
                 vec![sites[idx - 1].clone()]
+            }
+            else if all_pairs {
+                // The (idx - s - 1)-th unordered pair in lexicographic order.
+                let mut r = idx - s - 1;
+                let mut a = 0;
+                while r >= s - 1 - a {
+                    r -= s - 1 - a;
+                    a += 1;
+                }
+                vec![sites[a].clone(), sites[a + 1 + r].clone()]
             }
             else {
                 let a = sites[(idx - s - 1) * 7 % s].clone();
@@ -1459,7 +1480,7 @@ fn c20(idx: usize, ctx: &Ctx, rpt: &mut Report, enumerated: usize) {
     let mut rng = Rng::derive(ctx.seed, "C20", idx as u64);
     let is_root = unsafe { libc::geteuid() } == 0;
     let (spec, faults_desc, follow, stack_kind, depth_kind) = if idx < enumerated {
-        let (k, faults, follow, stack, depth_kind) = match c20_decode(idx, &mut rng) {
+        let (k, faults, follow, stack, depth_kind) = match c20_decode(idx, &mut rng, ctx.tier == Tier::Thorough) {
             Some(x) => x,
             None => return,
         };
@@ -1703,7 +1724,7 @@ impl Monitor for GroupC {
 
     fn total_cases(&self, _tier: Tier, _seed: u64) -> usize {
         match self.id {
-            "C20" => c20_case_count() + self.cases / 3,
+            "C20" => c20_case_count(_tier == Tier::Thorough) + self.cases / 3,
             _ => self.cases + self.strings.as_ref().map_or(0, |s| s.len()),
         }
     }
@@ -1727,7 +1748,7 @@ impl Monitor for GroupC {
             "C14" => c14(idx, ctx, rpt),
             "C15" => c15(idx, ctx, rpt),
             "C16" => c16(idx, ctx, rpt),
-            _ => c20(idx, ctx, rpt, c20_case_count()),
+            _ => c20(idx, ctx, rpt, c20_case_count(ctx.tier == Tier::Thorough)),
         }
     }
 }
